@@ -356,10 +356,13 @@ def translate_tables():
     wb, _ = R.fn_body(h1, "writable")
     lines.append("Definition gen_h1_close_after_close : bool := %s." % (
         "true" if (re.search(r"let\s+ended_by_close\s*=\s*!stream\.context\.keep_alive_backend\s*&&\s*stream\.back\.expects\s*>\s*0\s*&&\s*stream\.context\.method\s*!=\s*Some\([\w:]*Method::Head\)\s*;", wb)
-                   and re.search(r"if\s+stream\.context\.keep_alive_frontend\s*&&\s*!ended_by_close\s*\{", wb)) else "false"))
+                   and re.search(r"if\s+stream\.context\.keep_alive_frontend\s*&&\s*!ended_by_close\b", wb)) else "false"))
+    lines.append("Definition gen_h1_close_if_request_open : bool := %s." % (
+        "true" if (re.search(r"let\s+request_unfinished\s*=\s*!stream\.front\.is_terminated\(\)\s*;", wb)
+                   and re.search(r"if\s+stream\.context\.keep_alive_frontend\s*&&\s*!ended_by_close\s*&&\s*!request_unfinished\s*\{", wb)) else "false"))
     lines.append("Definition gen_tables : tables :=\n  mkT gen_esd gen_connect gen_redirect_fallback gen_front_timeout gen_back_timeout\n"
                  "      (fun h2 => if h2 then gen_end_arm_h2 else gen_end_arm_h1) gen_default_answer_effs gen_force_effs gen_known_codes\n"
-                 "      gen_conn_retries gen_retry_guard_ge gen_rearm_after_write gen_rearm_delay_close gen_rearm_wait gen_rearm_backend_wait\n      gen_h1_close_after_close.")
+                 "      gen_conn_retries gen_retry_guard_ge gen_rearm_after_write gen_rearm_delay_close gen_rearm_wait gen_rearm_backend_wait\n      gen_h1_close_after_close gen_h1_close_if_request_open.")
     return "\n".join(lines) + "\n", fails
 
 
@@ -578,7 +581,8 @@ def bb_scenarios(tier, rng):
           ("nohost", 0), ("nobackend", 0), ("redirect", 0), ("slow_client", 0),
           ("chunked_close_at", 60), ("chunked_close_at", len(HEAD_CH + CHUNKED)),
           ("close_delim_at", 50), ("close_delim_at", len(HEAD_CD + BODY)), ("keepalive_close", 0),
-          ("cl_close_at", 30), ("cl_close_at", 66), ("cl_close_at", len(HEAD_CLC + BODY)), ("cl_close_twice", 0)]
+          ("cl_close_at", 30), ("cl_close_at", 66), ("cl_close_at", len(HEAD_CLC + BODY)), ("cl_close_twice", 0),
+          ("early_response", 0), ("continue100", 0), ("expect100", 0), ("hints103", 0)]
     if tier != "quick":
         s += [("close_at", k) for k in range(0, len(HEAD_CL + BODY) + 1)]
         s += [("reset_at", k) for k in range(0, len(HEAD_CL + BODY), 3)]
@@ -630,7 +634,7 @@ def extra_stage(tier, rng, work):
     # predictions
     flat, index = [], []
     for kind, k in scns:
-        if kind in ("keepalive_close", "cl_close_twice"):
+        if kind in ("keepalive_close", "cl_close_twice", "early_response", "continue100", "expect100", "hints103"):
             index.append(None)
             continue
         sch, blen = predict_inputs(kind, k)
@@ -656,6 +660,22 @@ def extra_stage(tier, rng, work):
                     bad.append((i, "bb-hang", "%s %d: no answer and no close within the deadline" % (kind, k)))
                 if r.get("extra"):
                     bad.append((i, "bb-two-answers", "%s %d: %d bytes follow a complete response" % (kind, k, r["extra"])))
+            if kind == "early_response":
+                # the backend answered before the request body was complete: the response is relayed, and the
+                # rest of the body must not be taken for a new request (no second answer on this connection)
+                cl = [classify_obs(r) for r in rs]
+                if not cl or cl[0] != "relay" or rs[0]["body"] != 20:
+                    bad.append((i, "bb-mismatch", "early_response: first answer observed %s" % cl[:1]))
+                if len(rs) > 1 and rs[1]["status"]:
+                    bad.append((i, "bb-two-answers", "early_response: a second answer (status %d) followed the early response of the same request" % rs[1]["status"]))
+                continue
+            if kind in ("continue100", "expect100", "hints103"):
+                want1 = 103 if kind == "hints103" else 100
+                ok = len(rs) == 2 and rs[0]["status"] == want1 and rs[0]["complete"] and classify_obs(rs[1]) == "relay" and rs[1]["body"] == 20
+                if not ok:
+                    bad.append((i, "bb-interim", "%s: observed %s (expected interim %d, then the relayed 200 with 20 bytes)"
+                                % (kind, [(r["status"], r["complete"], r["body"]) for r in rs], want1)))
+                continue
             if kind == "cl_close_twice":
                 # Connection is hop-by-hop: the backend closing its connection after a complete,
                 # length-delimited response must not end the client's keep-alive connection
